@@ -183,9 +183,21 @@ def _check_function_names(fns: list[SymbolicFn]) -> None:
         if (ref := written.get(fn.fn_name)) is None:
             continue
         positional, expr = ref
-        if len(positional) != len(fn.args) or fn.expr != expr.xreplace(
-            dict(zip(positional, list_of_symbols(fn.args)))
-        ):
+        if len(positional) != len(fn.args):
+            same = False
+        elif len(set(fn.args)) == len(fn.args):
+            # Bring the use into the positional form of the reference, the way the
+            # reference got there. Substituting back and comparing with the use is not
+            # the same: xreplace re-evaluates, Abs(Abs(k)) comes back as Abs(k) and a
+            # function was reported to differ from itself
+            same = expr == fn.expr.xreplace(
+                dict(zip(list_of_symbols(fn.args), positional))
+            )
+        else:
+            same = fn.expr == expr.xreplace(
+                dict(zip(positional, list_of_symbols(fn.args)))
+            )
+        if not same:
             msg = f"Two different functions are called '{fn.fn_name}', unable to write both"
             raise ValueError(msg)
 
